@@ -492,6 +492,32 @@ def _pure_args(toks, where, what):
             raise Unsupported("%s with side effect in %s" % (what, where))
 
 
+
+def _reply_kind(toks, k, first_lit):
+    """R6r: text built directly inside `Message::Text( .. )` keeps its reply class: the literal (format string) starting with
+       `ok:` -> 1, `err:` -> 2, `unknown command` -> 3, anything else -> 0. Returns None when toks[k] is not the first token
+       inside `Message::Text(`."""
+    p = _prev_code(toks, k - 1)
+    if p < 0 or toks[p].text != "(":
+        return None
+    p2 = _prev_code(toks, p - 1)
+    if p2 < 0 or toks[p2].text != "Text":
+        return None
+    p3 = _prev_code(toks, p2 - 1)
+    p4 = _prev_code(toks, p3 - 1) if p3 >= 0 else -1
+    if p3 < 0 or toks[p3].text != "::" or p4 < 0 or toks[p4].text != "Message":
+        return None
+    if first_lit is None or first_lit.kind != "str":
+        return 0
+    body = first_lit.text[1:]
+    if body.startswith("ok:"):
+        return 1
+    if body.startswith("err:"):
+        return 2
+    if body.startswith("unknown command"):
+        return 3
+    return 0
+
 def r6_opaque_text(toks, log, where):
     """R6: error/label text is dropped: format!(..) / String::from("lit") / "lit".to_string()|.to_owned()|.into() ->
        vx_opaque_string(); std::io::Error::new(kind, text) / std::io::Error::other(text) -> vx_io_error()."""
@@ -506,8 +532,11 @@ def r6_opaque_text(toks, log, where):
                 j2 = _next_code(toks, j + 1)
                 e = match_close(toks, j2)
                 _pure_args(toks[j2 + 1:e], where, "format!")
-                log.append(("R6", where, re.sub(r"\s+", " ", untok(toks[k:e + 1]))[:100], "vx_opaque_string()"))
-                s_ = syn("vx_opaque_string()")
+                fl = _next_code(toks, j2 + 1)
+                rk = _reply_kind(toks, k, toks[fl] if fl < e else None)
+                repl_ = "vx_opaque_string()" if rk is None else "vx_reply_text(%d)" % rk
+                log.append(("R6", where, re.sub(r"\s+", " ", untok(toks[k:e + 1]))[:100], repl_))
+                s_ = syn(repl_)
                 s_[0].start = t.start
                 out.extend(s_)
                 k = e + 1
@@ -538,8 +567,10 @@ def r6_opaque_text(toks, log, where):
                     j3 = _next_code(toks, j2 + 1)
                     if j3 < n and toks[j3].text == "(":
                         e = match_close(toks, j3)
-                        log.append(("R6", where, untok(toks[k:e + 1])[:100], "vx_opaque_string()"))
-                        s_ = syn("vx_opaque_string()")
+                        rk = _reply_kind(toks, k, t)
+                        repl_ = "vx_opaque_string()" if rk is None else "vx_reply_text(%d)" % rk
+                        log.append(("R6", where, untok(toks[k:e + 1])[:100], repl_))
+                        s_ = syn(repl_)
                         s_[0].start = t.start
                         out.extend(s_)
                         k = e + 1
